@@ -10,6 +10,8 @@
 //!   `midgo <N> <m,m,...> <go arguments>`  poll every N nodes with the listed messages waiting in the channel behind the go:
 //!                                 `new` `stop` `quit` `ponderhit` `debugon` `debugoff` `pos=<fen_>` (any order, repeats allowed);
 //!                                 messages the search did not consume are consumed by idle afterwards, as in the engine
+//!   `pospv <k>`                   position = the last `pos` command extended by the first k moves of the PV reported last (a game
+//!                                 that follows the engine's own line: the PV-continuation path of the next go); answers `F:<fen_>`
 //!   `clock <ns per node|->`       virtual clock (elapsed = nodes * ns)
 //!   `poll <N|->`                  poll period
 //!   `board`                       read back the position held by the search
@@ -228,6 +230,22 @@ pub fn render_out(cmds: &[UciTxCommand]) -> String {
 pub fn session_op(args: &[&str]) -> String {
     let mut s = Session::new();
     let mut answers: Vec<String> = Vec::new();
+    let mut cur_pos: Vec<String> = vec!["startpos".to_string()];
+    let mut last_pv: Vec<String> = Vec::new();
+    let position_text = |toks: &[String]| -> String {
+        let mut t = if toks[0] == "startpos" { "position startpos".to_string() } else { format!("position fen {}", toks[0].replace('_', " ")) };
+        if toks.len() > 1 {
+            t.push_str(" moves ");
+            t.push_str(&toks[1..].join(" "));
+        }
+        t
+    };
+    let pv_of = |rendered: &str| -> Vec<String> {
+        rendered.split(' ').filter(|t| t.starts_with("I:")).filter_map(|t| {
+            let f: Vec<&str> = t.split(':').collect();
+            if f.len() >= 6 && f[5] != "-" { Some(f[5].split(',').map(|m| m.to_string()).collect::<Vec<_>>()) } else { None }
+        }).last().unwrap_or_default()
+    };
     for cmd in args.split(|t| *t == ";") {
         if cmd.is_empty() {
             continue;
@@ -254,11 +272,26 @@ pub fn session_op(args: &[&str]) -> String {
                     }
                     t
                 };
-                answers.push(if s.position(&text) { ".".into() } else { "E".into() });
+                let ok = s.position(&text);
+                if ok {
+                    cur_pos = cmd[1..].iter().map(|t| t.to_string()).collect();
+                }
+                answers.push(if ok { ".".into() } else { "E".into() });
+            }
+            "pospv" => {
+                let k = cmd.get(1).and_then(|t| t.parse::<usize>().ok()).unwrap_or(0).min(last_pv.len());
+                let mut toks = cur_pos.clone();
+                toks.extend(last_pv[..k].iter().cloned());
+                if s.position(&position_text(&toks)) {
+                    cur_pos = toks;
+                }
+                answers.push(format!("F:{}", s.board_fen().replace(' ', "_")));
             }
             "go" => {
                 let text = format!("go {}", cmd[1..].join(" "));
-                answers.push(s.go(&text, None).map_or("E".into(), |o| render_out(&o)));
+                let r = s.go(&text, None).map_or("E".into(), |o| render_out(&o));
+                last_pv = pv_of(&r);
+                answers.push(r);
             }
             "stopgo" | "quitgo" => {
                 let n = opt_num(cmd[1]).unwrap_or(100_000);
